@@ -625,20 +625,24 @@ def sb8(facts, rep):
             continue
         rep.analysed_body(b)
         rng = None
-        for bb in b.reachable(0):
-            for s in b.stmts(bb):
-                if s['k'] == 'assign' and s['r']['k'] == 'agg' and s['r'].get('adt', '').startswith('std::ops::Range'):
-                    e = [strip_casts(b.expr_operand(o, inline_user=True)) for o in s['r']['ops']]
-                    txt = ' .. '.join(fmt(x) for x in e)
-                    # location argument name -> LOC
-                    for l in range(1, b.arg_count + 1):
-                        if b.local_name(l):
-                            txt = re.sub(r'\b%s\b' % re.escape(b.local_name(l)), 'LOC', txt)
-                    txt = re.sub(r'\(?&?LOC\)?', 'LOC', txt)
-                    rng = txt
-        maps = sorted({call_info(t)['fn'].rsplit('::', 1)[-1] for _bb, t in b.calls()
+        fam = facts.family(b)       # the method and the closures nested in it (e.g. `.get(..).map(|itree| ..)`)
+        for c in fam:
+            for bb in c.reachable(0):
+                for s in c.stmts(bb):
+                    if s['k'] == 'assign' and s['r']['k'] == 'agg' and s['r'].get('adt', '').startswith('std::ops::Range'):
+                        e = [strip_casts(c.expr_operand(o, inline_user=True)) for o in s['r']['ops']]
+                        txt = ' .. '.join(fmt(x) for x in e)
+                        # captured variables of a closure are the variables of the method
+                        txt = re.sub(r'_1\.\^(\w+)', r'\1', txt)
+                        # location argument name -> LOC
+                        for l in range(1, b.arg_count + 1):
+                            if b.local_name(l):
+                                txt = re.sub(r'\b%s\b' % re.escape(b.local_name(l)), 'LOC', txt)
+                        txt = re.sub(r'\(?&?LOC\)?', 'LOC', txt)
+                        rng = txt
+        maps = sorted({call_info(t)['fn'].rsplit('::', 1)[-1] for c in fam for _bb, t in c.calls()
                        if call_info(t) and 'HashMap' in call_info(t)['fn']})
-        refid = any(call_info(t) and call_info(t)['fn'].endswith('::refid') for _bb, t in b.calls())
+        refid = any(call_info(t) and call_info(t)['fn'].endswith('::refid') for c in fam for _bb, t in c.calls())
         sigs[nm] = (rng, maps, refid, b)
     if len(sigs) == 3:
         rngs = {nm: re.sub(r'\bdata\b', 'LOC', s[0] or '') for nm, s in sigs.items()}
